@@ -111,3 +111,9 @@ impl AuthalicProjection {
         self.apply_coefficients(phi, &AUTHALIC_TO_GEODETIC)
     }
 }
+
+/// Verification hook: the private series coefficients
+#[cfg(feature = "verif")]
+pub fn verif_coefficients() -> ([f64; 6], [f64; 6]) {
+    (GEODETIC_TO_AUTHALIC, AUTHALIC_TO_GEODETIC)
+}
